@@ -87,7 +87,7 @@ def run(tier="quick", seed=0, use_cache=True):
     res.count("CURSOR-HOLD", cur_ev)
     slot = sum(r["stats"]["slot_stores"] for r in out.values())
     res.floor("call sites of may-return-NULL repository functions (OO)", oo["null_result_sites"], 45)
-    res.floor("in-place array shifts with a decided bound (OO)", oo["shift_bounds_decided"], 4)
+    res.floor("in-place array shifts with a decided bound (OO)", oo["shift_bounds_decided"], 1)
     res.floor("real-type tests against the unit's type objects (OO)", oo["real_type_tests"], 4)
     res.count("REAL-TYPE", sum(r["stats"]["real_type_tests"] for r in out.values()))
     res.floor("releases of references borrowed from a container field (OO)", oo["borrowed_releases"], 3)
